@@ -127,9 +127,16 @@ def _pick(rng, seq):
     return seq[int(rng.integers(len(seq)))]
 
 
-def _spherical_config(rng):
-    """Radial kind + solver options admissible for centred spherical densities."""
-    kind = _pick(rng, ["gl-becke", "gl-becke", "gl-becke", "cc-becke", "simpson-becke", "trap-becke", "glag-identity", "gl-linfinite", "gl-handymod", "gl-handy", "gl-knowles"])
+SPH_KINDS = ["gl-becke", "cc-becke", "simpson-becke", "trap-becke", "glag-identity", "gl-linfinite", "gl-handymod", "gl-handy", "gl-knowles"]
+
+
+def _spherical_config(rng, kind=None, short_range=False):
+    """Radial kind + solver options admissible for centred spherical densities.
+
+    ``short_range``: force remove_large_pts=10 where the kind has that option (the l=0 boundary value u(r_last) = total
+    charge / Y00 only matters when r_last is small: its influence on V is ~ 1/r_last)."""
+    if kind is None:
+        kind = _pick(rng, ["gl-becke", "gl-becke"] + SPH_KINDS)
     if kind == "gl-becke":
         spec = {"kind": kind, "n": _pick(rng, [80, 100, 120]), "rmin": _pick(rng, [1e-5, 1e-6]), "R": _pick(rng, [1.0, 1.5, 2.0])}
         opts = {"include_origin": True, "rlp": _pick(rng, [10.0, 30.0, 100.0, 1e6, 1e6, None])}
@@ -141,7 +148,7 @@ def _spherical_config(rng):
         arange = (0.15, 8.0)
     elif kind == "trap-becke":
         spec = {"kind": kind, "n": _pick(rng, [200, 250, 300]), "rmin": 0.0, "R": 1.5}
-        opts = {"include_origin": bool(rng.integers(2)), "rlp": _pick(rng, [30.0, 1e6])}
+        opts = {"include_origin": bool(rng.integers(2)), "rlp": _pick(rng, [10.0, 30.0, 1e6])}
         arange = (0.15, 8.0)
     elif kind == "glag-identity":
         spec = {"kind": kind, "n": 100}
@@ -163,6 +170,8 @@ def _spherical_config(rng):
         spec = {"kind": kind, "n": _pick(rng, [100, 120]), "R": _pick(rng, [1.5, 2.0])}
         opts = {"include_origin": False, "rlp": _pick(rng, [None, 1e6])}
         arange = (0.25, 4.0)
+    if short_range and kind in ("gl-becke", "cc-becke", "simpson-becke", "trap-becke"):
+        opts["rlp"] = 10.0
     return spec, opts, arange
 
 
@@ -203,7 +212,8 @@ def cases(tier, seed):
 
     # 1. centred spherical
     for k in range(14 if q else 70):
-        spec, opts, ar = _spherical_config(rng)
+        # every run: each radial kind at least once (k < 9), four short-range solves (k = 0..3), then random kinds
+        spec, opts, ar = _spherical_config(rng, kind=SPH_KINDS[k] if k < len(SPH_KINDS) else None, short_range=(k % 14 < 4))
         deg = _pick(rng, [6, 8, 10, 14] if q else [6, 8, 10, 14, 14, 18, 22])
         add("bvp-centred", {"k": k, "rad": spec, "opts": opts, "arange": list(ar), "degree": deg, "nterms": int(rng.integers(1, 4))}, 0.5 * (deg / 8.0) ** 2)
     # 2. off-centre
